@@ -45,13 +45,14 @@ def gen_record(rng, r):
     ents = entries()
     mode = rng.choice(["M1", "M1", "M2", "M2", "M3", "M3", "M3"])
     cfg = {"mode": mode, "env_seed": rng.randrange(1000)}
-    ntempl = rng.choice([1, 2, 2, 3])
+    thorough = os.environ.get("VERIF_TIER_INTERNAL", "quick") == "thorough"
+    ntempl = rng.choice([1, 2, 3, 4] if thorough else [1, 2, 2, 3])
     templates = []
     for j in range(ntempl):
         e = ents[(r * 3 + j * 7) % len(ents)] if j == 0 else rng.choice(ents)
         templates.append(gen_template(rng, e))
     seeds = rng.sample([0, 1, 7, 42, 2**31 - 1], 2)
-    nthreads = 1 if mode != "M3" else rng.choice([2, 2, 3])
+    nthreads = 1 if mode != "M3" else rng.choice([2, 3, 3, 4] if thorough else [2, 2, 3])
     cfg["p_mid"] = 0.0 if mode == "M1" else rng.choice([0.01, 0.05, 0.2])
     cfg["noise"] = mode == "M3" and rng.random() < 0.5
     if mode == "M3":
@@ -63,7 +64,7 @@ def gen_record(rng, r):
     threads = []
     for t in range(nthreads):
         ops = []
-        for _ in range(rng.randint(3, 8 if mode != "M3" else 5)):
+        for _ in range(rng.randint(3, (14 if thorough else 8) if mode != "M3" else (8 if thorough else 5))):
             if rng.random() < p_perturb:
                 ops.append({"op": "perturb", "p": rngenv.gen_perturb(rng)})
             else:
